@@ -252,7 +252,7 @@ def gen_world(rng, rich=True, natives=True, max_depth=3):
     if natives:
         for n, a, rows in facts:
             if rng.random() < 0.35:
-                styles = ['inferred', 'explicit', 'variadic', 'decorated', 'prebuilt', 'explicit-varargs', 'delegate']
+                styles = ['inferred', 'explicit', 'variadic', 'decorated', 'prebuilt', 'explicit-varargs', 'delegate', 'partial', 'bound-method', 'callable-object', 'prebuilt-foreign']
                 if n == 'k':
                     styles += ['prebuilt'] * 4
                 native.append([n, a, rng.choice(styles), rng.random() < 0.5])
@@ -303,10 +303,12 @@ def make_native(yp, unify, rows, arity, style, yield_value, ctl, name=None):
     # style 'prebuilt': ground rows are built once, at registration, and reused by every invocation (a Python
     # fact predicate that keeps a table of terms); rows with variables are still built fresh per invocation
     prebuilt = {}
-    if style == 'prebuilt':
+    if style in ('prebuilt', 'prebuilt-foreign'):
+        # 'prebuilt-foreign': the table was built with the atoms of another engine instance (atoms are equal by name)
+        builder = yp if style == 'prebuilt' else type(yp)()
         for i_, row in enumerate(trows):
             if all(_TM.is_ground(t) for t in row):
-                prebuilt[i_] = [_TM.build(yp, t, {}) for t in row]
+                prebuilt[i_] = [_TM.build(builder, t, {}) for t in row]
 
     def impl(*args):
         ctl['calls'] += 1
@@ -363,6 +365,31 @@ def make_native(yp, unify, rows, arity, style, yield_value, ctl, name=None):
         # a generic `def facts(*args)` registered under an explicit arity (also 0)
         return impl, arity
     wrappers = {0: lambda: impl(), 1: lambda a: impl(a), 2: lambda a, b: impl(a, b), 3: lambda a, b, c: impl(a, b, c)}
+    if style in ('partial', 'bound-method', 'callable-object'):
+        # the same predicate handed to register_function as another kind of callable (arity still inferable)
+        import functools
+        f0 = wrappers[arity]
+        if style == 'partial':
+            return functools.partial(f0), None
+
+        class Holder:
+            def m0(self):
+                return f0()
+
+            def m1(self, a):
+                return f0(a)
+
+            def m2(self, a, b):
+                return f0(a, b)
+
+            def m3(self, a, b, c):
+                return f0(a, b, c)
+
+            def __call__(self, *a):
+                return f0(*a)
+        if style == 'bound-method':
+            return getattr(Holder(), 'm%d' % arity), None
+        return Holder(), arity          # a callable object (explicit arity: its __call__ takes *args)
     if style == 'decorated':
         # an ordinary functools.wraps decorator around the predicate; its arity is inferred through __wrapped__
         import functools
@@ -373,7 +400,7 @@ def make_native(yp, unify, rows, arity, style, yield_value, ctl, name=None):
                 yield from f(*a, **kw)
             return wrapper
         return traced(wrappers[arity]), None
-    return wrappers[arity], (None if style in ('inferred', 'prebuilt') else arity)
+    return wrappers[arity], (None if style in ('inferred', 'prebuilt', 'prebuilt-foreign') else arity)
 
 
 # ------------------------------------------------------------------------------------
